@@ -340,6 +340,94 @@ theorem C18_default_mapping_pinned_witness :
       remapEntries {} none [[Str.ofString "# nothing to remap"]] fl [d1, d2] = some [d1, d2] := by
   decide
 
+/-! ## a manifest as a live object: install order under `reverse`, `roll`, `getDependency` -/
+
+theorem rollRight1_rollLeft1 {α : Type} (l : List α) : rollRight1 (rollLeft1 l) = l := by
+  cases l with
+  | nil => rfl
+  | cons x r => simp [rollLeft1, rollRight1]
+
+theorem iter_succ_right {α : Type} (f : α → α) (k : Nat) (x : α) : iter f (k + 1) x = f (iter f k x) := by
+  induction k generalizing x with
+  | zero => rfl
+  | succ k ih => rw [iter, ih (f x)]; rfl
+
+theorem iter_right_left {α : Type} (k : Nat) (l : List α) : iter rollRight1 k (iter rollLeft1 k l) = l := by
+  induction k generalizing l with
+  | zero => rfl
+  | succ k ih =>
+    rw [iter_succ_right rollLeft1 k l, iter, rollRight1_rollLeft1, ih]
+
+/-- **`reverse` twice restores the install order.** -/
+theorem C18_manifest_reverse_involutive (m : Manifest) : m.reverse.reverse = m := by
+  simp [Manifest.reverse]
+
+/-- **`roll(n)` followed by `roll(-n)` restores the install order** (every `n ≥ 0`, every manifest). -/
+theorem C18_manifest_roll_back (m : Manifest) (n : Nat) : (m.roll (n : Int)).roll (-(n : Int)) = m := by
+  cases n with
+  | zero => simp [Manifest.roll, rollList, iter]
+  | succ k =>
+    have h1 : ¬ (((k + 1 : Nat) : Int) < 0) := by omega
+    have h2 : (-((k + 1 : Nat) : Int)) < 0 := by omega
+    simp only [Manifest.roll, rollList, h1, h2, if_false, if_true, Int.natAbs_neg, Int.natAbs_natCast]
+    rw [iter_right_left]
+
+/-- `roll` keeps every entry: the rolled list is a permutation of the list (here: same length and same members) -/
+theorem C18_manifest_roll_keeps_entries (m : Manifest) (n : Int) (d : Dep) :
+    d ∈ (m.roll n).deps ↔ d ∈ m.deps := by
+  have hl : ∀ (l : List Dep), d ∈ rollLeft1 l ↔ d ∈ l := by
+    intro l; cases l with
+    | nil => rfl
+    | cons x r => simp [rollLeft1, or_comm]
+  have hr : ∀ (l : List Dep), d ∈ rollRight1 l ↔ d ∈ l := by
+    intro l
+    unfold rollRight1
+    cases h : l.reverse with
+    | nil => simp [List.reverse_eq_nil_iff.mp h]
+    | cons x r =>
+      have : l = r.reverse ++ [x] := by
+        have := congrArg List.reverse h; simpa using this
+      subst this
+      simp [or_comm]
+  have hit : ∀ (f : List Dep → List Dep), (∀ l, d ∈ f l ↔ d ∈ l) → ∀ k l, d ∈ iter f k l ↔ d ∈ l := by
+    intro f hf k
+    induction k with
+    | zero => intro l; rfl
+    | succ k ih => intro l; rw [iter, ih, hf]
+  simp only [Manifest.roll, rollList]
+  split
+  · exact hit _ hr _ _
+  · exact hit _ hl _ _
+
+/-- `getDependency(product)` with the default `which = -1` is the *last* entry of that product (install order) -/
+theorem C18_manifest_getDependency_last (m : Manifest) (p : Str) :
+    m.getDependency p none none (-1) = (m.deps.filter fun d => d.product == p).getLast? := by
+  unfold Manifest.getDependency
+  simp only [Option.isNone_none, Bool.true_or, Bool.and_true]
+  cases h : m.deps.filter (fun d => d.product == p) with
+  | nil => simp
+  | cons x r =>
+    have hn : ¬ ((-1 : Int) ≥ ((x :: r).length : Int)) := by simp; omega
+    have hn2 : ¬ ((-1 : Int) < -((x :: r).length : Int)) := by simp; omega
+    have hn3 : ¬ ((-1 : Int) ≥ 0) := by omega
+    simp only [List.isEmpty_cons, Bool.false_eq_true, false_or, hn, hn2, hn3, if_false]
+    have : (((x :: r).length : Int) + -1).toNat = (x :: r).length - 1 := by
+      simp only [List.length_cons]; omega
+    rw [this, List.getLast?_eq_getElem?]
+    simp
+
+/-- Non-vacuity: `[a, b, c, d]` rolled by 1 is `[b, c, d, a]`, by -1 `[d, a, b, c]`; two entries of `b`: the default
+`getDependency` is the later one, `which = 0` the earlier. -/
+example :
+    let dep := fun (p v : String) => mkDep (Str.ofString p) (Str.ofString v) none none none none false false []
+    let m : Manifest := { product := none, version := none, deps := [dep "a" "1", dep "b" "1", dep "c" "1", dep "b" "2"] }
+    (m.roll 1).deps.map (·.product) = ["b", "c", "b", "a"].map Str.ofString ∧
+      (m.roll (-1)).deps.map (·.product) = ["b", "a", "b", "c"].map Str.ofString ∧
+      (m.getDependency (Str.ofString "b") none none (-1)).map (·.version) = some (Str.ofString "2") ∧
+      (m.getDependency (Str.ofString "b") none none 0).map (·.version) = some (Str.ofString "1") ∧
+      m.getDependency (Str.ofString "b") none none 2 = none := by
+  decide
+
 /-! ## tag lists as live objects: `mergeProductList` -/
 
 /-- every listed product has its `[flavor, version, …]` record (what `addProduct` maintains) -/
